@@ -443,8 +443,23 @@ impl MemoryInstance {
             "We only allow shrinking of the heap during rollback"
         );
 
-        let stack_changes =
-            get_changes(&self.stack[..sp], &desired_memory_state.stack[..sp], 0);
+        // The current stack can be shorter than the desired one: the heap may have grown
+        // into the old stack extent and truncated the stack vector. `rollback` first
+        // resizes the stack to `sp` with zeroes, so the missing tail is compared to zeroes.
+        let common = sp.min(self.stack.len());
+        let mut stack_changes = get_changes(
+            &self.stack[..common],
+            &desired_memory_state.stack[..common],
+            0,
+        );
+        if common < sp {
+            let zeroes = alloc::vec![0u8; sp.saturating_sub(common)];
+            stack_changes.extend(get_changes(
+                &zeroes,
+                &desired_memory_state.stack[common..sp],
+                common,
+            ));
+        }
 
         let heap_start = hp
             .checked_sub(self.heap_offset())
